@@ -7,7 +7,7 @@ from ..core.interp import Interp, Const, Tup, Unknown
 from ..core.norm import Rat
 from ..domains.normdom import Sym
 from ..domains.order import SeqV, OutV
-from ..domains.shape import ShapeDomain, Sh, Scalar, NsV, Dim
+from ..domains.shape import ShapeDomain, Sh, Scalar, NsV, Dim, PairsV
 from . import polyfam as PF
 from .c07 import log_obligations
 from .common import norm_interp, returns, as_rat
@@ -131,7 +131,7 @@ def _scaled_equal(dom, val, want, fam, pv):
 
 # --------------------------------------------------------------------------
 def _seq_summary(dom, fi, args, kwargs, node):
-    x = args[3] if len(args) > 3 else kwargs.get('x')
+    x = kwargs.get('x', args[-1] if args else None)
     if isinstance(x, Sh):
         return Sh(('K',) + x.dims)
     if isinstance(x, (Scalar, Const)):
@@ -195,6 +195,113 @@ def shape_rules(run, db):
             run.check(bad is None, 'C08.shape', f.qual, 'result shape',
                       'result shape is (K, *S) for a rank-%d coordinate array with distinct dimensions; per-order constants broadcast along axis 0 only' % rank,
                       'for a rank-%d coordinate array (shape %s, dimensions distinct from the number of orders K): %s; expected shape %s' % (rank, S, bad, ('K',) + S), f.loc())
+
+
+def _shape_of_value_fn(db, qual, kw, summaries):
+    """Set of result shapes of a single-order function over all its paths."""
+    f = db.func(qual)
+    dom = ShapeDomain(summaries)
+    it = Interp(db, dom)
+    out = set()
+    for p in it.run(f, kwargs=lambda: dict(kw)):
+        if p.outcome != 'return':
+            continue
+        if any(e['kind'] in ('broadcast-error', 'index-error') for e in p.events):
+            raise AnalysisError('%s: shape error in the single-order function on path %s' % (qual, p.conds))
+        v = p.value
+        if isinstance(v, Sh):
+            out.add(v.dims)
+        elif isinstance(v, Scalar):
+            out.add(())
+        else:
+            raise AnalysisError('%s: result shape unknown on path %s: %r' % (qual, p.conds, v))
+    if not out:
+        raise AnalysisError('%s: no returning path' % qual)
+    return out
+
+
+def _value_summary(dom, fi, args, kwargs, node):
+    """jacobi / Qbfs etc. at one order: shape of the coordinate."""
+    x = args[-1] if args else kwargs.get('x')
+    return x if isinstance(x, (Sh, Scalar)) else Unknown('value of unknown x')
+
+
+def _scalar_summary(dom, fi, args, kwargs, node):
+    return Scalar()
+
+
+def seq2_shape_rules(run, db):
+    """Two-index sequence functions: every mode has the shape the single-term function returns, whatever the branch taken."""
+    Q = P + 'qpoly.'
+    seq_summ = {PF.PJ + 'jacobi_seq': _seq_summary, PF.PD + 'dickson2_seq': _seq_summary, Q + 'Qbfs_seq': _seq_summary,
+                PF.PJ + 'jacobi': _value_summary, Q + 'Qbfs': _value_summary, PF.PJ + 'recurrence_abc': _abc_summary,
+                Q + 'abc_q2d': _abc_summary}
+    for nm in ('f_q2d', 'g_q2d', 'f_qbfs', 'g_qbfs', 'h_qbfs'):
+        seq_summ[Q + nm] = _scalar_summary
+    seq_summ[P + 'zernike.zernike_norm'] = _scalar_summary
+    table = [
+        (P + 'zernike.zernike_nm_seq', P + 'zernike.zernike_nm', ('r', 't'), 'nms', {'norm': [Const(True), Const(False)]}, range(0, 4), 'array'),
+        (Q + 'Q2d_seq', Q + 'Q2d', ('r', 't'), 'nms', {}, range(0, 4), 'array'),
+        (P + 'xy.xy_seq', P + 'xy.xy', ('x', 'y'), 'mns', {'cartesian_grid': [Const(True), Const(False)]}, range(1, 4), 'list'),
+    ]
+    for qseq, qone, coords, pairs, opts, ranks, kind in table:
+        f = db.func(qseq)
+        one = db.func(qone)
+        optname = list(opts)[0] if opts else None
+        for optval in (opts[optname] if optname else [None]):
+            for rank in ranks:
+                S = tuple('S%d' % i for i in range(rank))
+                kw = {c: Sh(S) for c in coords}
+                if optname:
+                    kw[optname] = optval
+                label = 'rank %d%s' % (rank, ', %s=%s' % (optname, optval.v) if optname else '')
+                # the shape of one term according to the single-term function
+                kw1 = dict(kw)
+                for pn in one.params:
+                    if pn not in kw1 and pn in ('n', 'm'):
+                        kw1[pn] = Scalar()
+                want = _shape_of_value_fn(db, qone, kw1, seq_summ)
+                dom = ShapeDomain(seq_summ)
+                it = Interp(db, dom)
+                kws = dict(kw)
+                kws[pairs] = PairsV()
+                res = [p for p in it.run(f, kwargs=lambda: dict(kws)) if p.outcome == 'return']
+                if not res:
+                    raise AnalysisError('%s: no returning path (%s)' % (qseq, label))
+                bad = None
+                nterms = 0
+                for p in res:
+                    errs = [e for e in p.events if e['kind'] in ('broadcast-error', 'index-error', 'loop-shape-change') or (e['kind'] == 'store' and e['ok'] is False)]
+                    if errs:
+                        e = errs[0]
+                        bad = ('path %s: operands of shapes %s and %s do not broadcast' % (p.conds, e.get('a'), e.get('b'))) if e['kind'] == 'broadcast-error' \
+                            else ('path %s: %s: value of shape %s stored into a slot of shape %s' % (p.conds, e['kind'], e.get('value'), e.get('sub')))
+                        break
+                    v = p.value
+                    if kind == 'array':
+                        if not isinstance(v, Sh):
+                            raise AnalysisError('%s: result shape unknown (%s) on path %s: %r' % (qseq, label, p.conds, v))
+                        terms = {v.dims[1:]} if v.dims[:1] == ('K',) else {('?',) + v.dims}
+                        # a stored value narrower than the slot is broadcast by the store: that is still the slot shape
+                    else:
+                        if not (isinstance(v, Tup) and v.kind == 'list' and v.items):
+                            raise AnalysisError('%s: result is not a non-empty list (%s) on path %s: %r' % (qseq, label, p.conds, v))
+                        terms = set()
+                        for x in v.items:
+                            if isinstance(x, Sh):
+                                terms.add(x.dims)
+                            elif isinstance(x, Scalar):
+                                terms.add(())
+                            else:
+                                raise AnalysisError('%s: term shape unknown (%s): %r' % (qseq, label, x))
+                    nterms += 1
+                    if not terms <= want:
+                        bad = 'on the path %s a mode has shape %s, but %s returns shape %s for one term' % (
+                            [c for c, t in p.conds if t][-3:], sorted(terms - want)[0], one.name, sorted(want))
+                        break
+                run.check(bad is None, 'C08.shape2', f.qual, label,
+                          'every mode of %s has the shape %s returns for one term (%s), on all %d paths' % (f.name, one.name, label, len(res)),
+                          '%s vs %s for %s coordinates %s: %s' % (f.name, one.name, label, S, bad), f.loc())
 
 
 def sibling_rules(run, db):
@@ -319,6 +426,25 @@ def table_rules(run, db):
     run.check(len(rets) == 1 and ast.unparse(rets[0].value).replace(' ', '') == 'x**m*y**n', 'C08.table', fxy.qual, 'definition', 'xy == x**m y**n', 'xy is not x**m * y**n', fxy.loc())
 
 
+def shared_rules(run, db):
+    """Tables shared across requested (n, m): no entry is written in place through an alias."""
+    from .purity import shared_entry_mutations
+    for qual in (P + 'zernike.zernike_nm_seq', P + 'xy.xy_seq'):
+        f = db.func(qual)
+        sites = set()
+        bad = shared_entry_mutations(f, sites)
+        if not sites:
+            raise AnalysisError('%s: no table lookups inside the request loop' % qual)
+        badsites = {r for _, _, r in bad}
+        for ln, text in sorted(sites):
+            if text not in badsites:
+                run.ok('C08.shared', f.qual, 'entry %s is only read' % text)
+        for st, nm, r in bad:
+            run.finding('C08.shared', f.qual, 'in-place write through %s' % nm,
+                        '`%s` writes in place through `%s`, which may alias the shared table entry %s: a later requested mode with the same key reads the modified entry '
+                        '(e.g. (n, -m) after (n, m), or a repeated term), so the sequence no longer equals one-at-a-time evaluation' % (norm_stmt(st), nm, r), f.loc(st))
+
+
 def check(run, db, tier):
     run.trust('ORDER engine for the emission sweeps; SHAPE domain (right-aligned broadcasting over pairwise-distinct symbolic dimensions); reference families of sa/rules/polyfam.py')
     run.assume('requested orders are ascending non-negative integers (the documented contract); bitwise float equality of the two evaluation orders is not decided',
@@ -328,8 +454,11 @@ def check(run, db, tier):
     run.rule('C08.sibling', 'sequence and scalar functions apply the same per-order constant and parameters')
     run.rule('C08.neg', 'no order that can be negative reaches a recurrence')
     run.rule('C08.table', 'xy_seq monomial tables hold x**k for every k including 0; lookup in request order')
-    for fn in (emit_rules, shape_rules, sibling_rules, neg_rules, table_rules):
+    run.rule('C08.shared', 'per-|m| / per-exponent tables shared across the requested terms are never written in place through an alias (may-alias, joined over branches)')
+    run.rule('C08.shape2', 'two-index sequence functions (zernike_nm_seq, Q2d_seq, xy_seq): every mode has the shape the single-term function returns, for coordinate ranks 0..3, on every branch')
+    for fn in (emit_rules, shape_rules, seq2_shape_rules, sibling_rules, neg_rules, table_rules, shared_rules):
         run.group(fn, run, db)
     run.require_instances('C08.emit', 60)
     run.require_instances('C08.shape', 80)
     run.require_instances('C08.sibling', 10)
+    run.require_instances('C08.shared', 6)
